@@ -112,6 +112,10 @@ def exec (s : St) : List Act → Option St
     | some s' => exec s' rest
     | none => none
 
+/-- Records the consumer has received plus those that have left the executor or are about to (in the buffer, in
+    the blocked send). -/
+def inFlight (s : St) : Nat := s.recvd.length + s.buf.length + (if s.hand.isSome then 1 else 0)
+
 /-- A variant that decides the permission when the candidates are collected (at `init`, i.e. before any
     `protect`) and not again at the visit: what is in the snapshot is sent. Kept for the refutation witness. -/
 def stepSnapshotCheck (s : St) : Act → Option St
